@@ -909,6 +909,40 @@ Proof.
   rewrite <- B in T. exact T.
 Qed.
 
+(* ====================================================================== *)
+(** * the text of a failed test *)
+
+(* testMessage: nothing with <= 2 arguments; with exactly 3 the third argument
+   VERBATIM (no formatting: a '%' in it is just a character); with >= 4 the
+   third argument is a format string applied to the remaining arguments *)
+Lemma test_message_none o args : (List.length args <= 2)%nat -> test_message o args = Some [].
+Proof. destruct args as [|a [|b [|c r]]]; simpl; intros H; try reflexivity; lia. Qed.
+
+Lemma test_message_three o a b m msg :
+  any_inner m = VStr msg -> test_message o [a; b; m] = Some (s_ " (" ++ msg ++ s_ ")").
+Proof. intros H. simpl. rewrite H. reflexivity. Qed.
+
+Lemma test_message_format o a b m msg x rest :
+  any_inner m = VStr msg ->
+  test_message o (a :: b :: m :: x :: rest)
+  = option_map (fun r => s_ " (" ++ r ++ s_ ")") (sprintf o msg (x :: rest)).
+Proof. intros H. simpl. rewrite H. reflexivity. Qed.
+
+(* the error of a failing two-value test: want != got with both values in
+   repr form, followed by the message part *)
+Lemma test_func_failure o want got rest tail :
+  same want got = false ->
+  match rest with [] => True | m :: _ => exists msg, any_inner m = VStr msg end ->
+  test_message o (want :: got :: rest) = Some tail ->
+  test_func o (want :: got :: rest)
+  = OTestFail (s_ "want != got: " ++ vrepr o want ++ s_ " != " ++ vrepr o got ++ tail).
+Proof.
+  intros S M T. unfold test_func. 
+  assert (match rest with [] => true | m :: _ => match any_inner m with VStr _ => true | _ => false end end = true) as OK.
+  { destruct rest as [|m r]; [reflexivity|]. destruct M as [msg ->]. reflexivity. }
+  rewrite OK, S, T. reflexivity.
+Qed.
+
 (* float constants for Props/C13.v (which does not import Floats, so that Print
    Assumptions shows the primitive operations with their qualified names) *)
 Definition fc_nan : float := nan.
